@@ -16,6 +16,28 @@ fn len_of<T: Serialize>(v: T) -> Option<usize> {
     l
 }
 
+// ---------------------------------------------------------------- C09 (cheap leading queries):
+// scalars; these are listed first so that a change of the integer encoding is replayed on a
+// small harness.
+#[kani::proof]
+#[kani::unwind(20)]
+#[kani::stub(std::fmt::format, no_format)]
+fn c09_len_scalars() {
+    let a: u128 = kani::any();
+    let b: u128 = kani::any();
+    let la = len_of(a);
+    assert!(la.is_some() && la == len_of(b), "C09:len(u128)-independent-of-value");
+    assert!(la == Some(16), "C09:len(u128)==16");
+    let c: (bool, Mac) = (kani::any(), Mac(kani::any()));
+    let d: (bool, Mac) = (kani::any(), Mac(kani::any()));
+    let lc = len_of(c);
+    assert!(lc.is_some() && lc == len_of(d), "C09:len((bool,Mac))-independent-of-value");
+    assert!(lc == Some(17), "C09:len((bool,Mac))==17");
+    let e: u64 = kani::any();
+    assert!(len_of(e) == Some(8), "C09:len(u64)==8");
+    kani::cover!(la.is_some(), "serialize_ok_reachable");
+}
+
 // ---------------------------------------------------------------- C09: encoding length is a
 // function of the shape only (2-safety by self-composition) and equals the fixed-width closed form.
 
@@ -174,3 +196,8 @@ decode_total!(c08_decode_vec_dvalues_18, Vec<(Vec<bool>, Vec<Mac>)>, 18, 4);
 decode_total!(c08_decode_vec_bool_9, Vec<bool>, 9, 3);
 decode_total!(c08_decode_vec_opt_bool_mac_9, Vec<Option<(bool, Mac)>>, 9, 3);
 decode_total!(c08_decode_vec_bool_8, Vec<bool>, 8, 2);
+decode_total!(c08_decode_vec_opt_u128_12, Vec<Option<u128>>, 12, 6);
+decode_total!(c08_decode_vec_bool_bool_12, Vec<(bool, bool)>, 12, 6);
+decode_total!(c08_decode_vec_bbmm_12, Vec<(bool, bool, Mac, Mac)>, 12, 4);
+decode_total!(c08_decode_vec_opt_bool_label_12, Vec<Option<(bool, Label)>>, 12, 6);
+decode_total!(c08_decode_vec_u32_12, Vec<u32>, 12, 4);
